@@ -57,6 +57,7 @@ def cases(tier, seed):
                 for opts in (("00", "01", "10", "11") if variant == "maxdays" else ("00", "01")):
                     out.append(f"{which}/{n}/{variant}/{opts}")
     out.append("ground/overshoot-without-max_days")
+    out.append("ground/dst-window")
     return out
 
 
@@ -291,7 +292,47 @@ def run_ground(case):
     case.sample(dict(ground="allow_billing_period_overshoot=True, max_days=None"))
 
 
+DST_CATALOGUE = [("America/Chicago", "2016-10-21", 30, "h"), ("America/Chicago", "2016-10-21", 30, "D"), ("US/Pacific", "2021-02-20", 30, "h"),
+                 ("Australia/Sydney", "2021-03-20", 20, "h"), ("Europe/London", "2021-10-15", 25, "D"), ("UTC", "2021-10-15", 25, "h")]
+
+
+def replay_dstwin(inp):
+    """tz-aware series across a DST change (timezone handling is not modelled by the shim: enumerated, concrete):
+    the window is max_days of ELAPSED time from the cut, as for every other input"""
+    zone, start, md, freq = DST_CATALOGUE[inp["index"]]
+    idx = pd.date_range(pd.Timestamp(start, tz=zone) - pd.Timedelta(days=md + 5), pd.Timestamp(start, tz=zone) + pd.Timedelta(days=md + 5), freq=freq)
+    s = pd.Series(np.arange(len(idx), dtype=float), index=idx)
+    cut = pd.Timestamp(start, tz=zone)
+    pr = []
+    rep, _ = tr.get_reporting_data(s, start=cut, max_days=md)
+    if rep.index.min() < cut or rep.index.max() > cut + pd.Timedelta(days=md):
+        pr.append(f"reporting window {rep.index.min()} .. {rep.index.max()} exceeds [{cut}, {cut + pd.Timedelta(days=md)}]")
+    want = s[(s.index >= cut) & (s.index <= cut + pd.Timedelta(days=md))]
+    if len(rep) != len(want):
+        pr.append(f"reporting window has {len(rep)} rows, {len(want)} lie within max_days of the start")
+    base, _ = tr.get_baseline_data(s, end=cut, max_days=md)
+    wantb = s[(s.index <= cut) & (s.index >= cut - pd.Timedelta(days=md))]
+    if base.index.max() > cut or base.index.min() < cut - pd.Timedelta(days=md) or len(base) != len(wantb):
+        pr.append(f"baseline window {base.index.min()} .. {base.index.max()} ({len(base)} rows) vs expected {len(wantb)} rows within max_days before the end")
+    return bool(pr), f"{zone} {start} max_days={md} freq={freq}: " + "; ".join(pr)
+
+
+REPLAY["dstwin"] = replay_dstwin
+
+
+def run_dstwin(case):
+    for i in range(len(DST_CATALOGUE)):
+        bad, det = replay_dstwin(dict(index=i))
+        if not case.ground(not bad, "windows across a DST change are max_days of elapsed time from the cut (tz-aware catalogue)"):
+            case.violation("windows across a DST change are max_days of elapsed time from the cut (tz-aware catalogue)", "dstwin", dict(index=i), det)
+    case.rep["paths"] += len(DST_CATALOGUE)
+    case.rep["nontrivial_paths"] += len(DST_CATALOGUE)
+    case.sample(dict(ground="tz-aware DST catalogue", entries=DST_CATALOGUE))
+
+
 def run_case(case: Case, name: str):
+    if name == "ground/dst-window":
+        return run_dstwin(case)
     if name.startswith("ground/"):
         return run_ground(case)
     which, n, variant, opts = name.split("/")
